@@ -131,8 +131,6 @@ def in_domain(n, v):
         return MIN <= v[0] <= MAX
     if n == 'CharNum':
         return 0 <= v[0] < 128
-    if n == 'SIntLength':
-        return v[0] >= 0
     if n == 'BIntLength':
         return v[0] != 0
     if n in ('SIntToSFlo', 'SIntToDFlo', 'BIntToSFlo', 'BIntToDFlo'):
@@ -227,7 +225,7 @@ def define(n, v):
             if o == 'PlusMod': return ('mod', a + v[1], v[2])
             if o == 'MinusMod': return ('mod', a - v[1], v[2])
             if o == 'TimesMod': return str((a * v[1]) % v[2])
-            if o == 'Length' and a >= 0: return str(a.bit_length())
+            if o == 'Length': return str(abs(a).bit_length())      # bit length of the magnitude, for both signs
             if o == 'ShiftUp': return str(a << v[1])
             if o == 'ShiftDn' and (P == 'SInt' or a >= 0): return str(a >> v[1])
             if o == 'Bit' and a >= 0: return b2((a >> v[1]) & 1)
